@@ -34,6 +34,9 @@ const reqTimeout = 20 * time.Second
 
 func TestMain(m *testing.M) {
 	adaptation.SetPluginRequestTimeout(reqTimeout)
+	// registration (handshake) is not what this property is about: keep its timeout out of
+	// the way on a loaded machine.
+	adaptation.SetPluginRegistrationTimeout(reqTimeout)
 	code := m.Run()
 	fixMu.Lock()
 	if fix != nil && !fix.dead {
